@@ -55,8 +55,8 @@ Qed.
 
 Lemma removelast_head {A} (x : A) (r : list A) : r <> [] -> removelast (x :: r) = x :: removelast r.
 Proof. destruct r; [congruence|reflexivity]. Qed.
-Lemma deadline_live t now : now <= MAXI -> (deadline t now <? now) = false.
-Proof. intros H. unfold deadline. destruct (t <=? 0) eqn:E; apply Z.ltb_ge; [exact H|apply Z.leb_gt in E; lia]. Qed.
+Lemma deadline_live t now : fits t now -> (deadline t now <? now) = false.
+Proof. intros H. rewrite (deadline_fits t now H). destruct H as [Hn Ht]. destruct (t <=? 0) eqn:E; apply Z.ltb_ge; [lia|apply Z.leb_gt in E; lia]. Qed.
 
 (* inserting a fresh head into a cache of size >= 1 keeps that head, whether or not the cold end is evicted *)
 Lemma head_survives (x : node) (l0 : list node) sz : 1 <= sz ->
@@ -68,11 +68,11 @@ Proof.
 Qed.
 
 (* a Set that reports success makes the value retrievable at once (size >= 1; the clock is a 63-bit reading) *)
-Theorem set_then_get c k v o now : 1 <= size c -> now <= MAXI ->
+Theorem set_then_get c k v o now : 1 <= size c -> fits (set_ttl c o) now ->
   snd (set c k v o now) = Done -> view (fst (set c k v o now)) k now = Some v.
 Proof.
   intros Hs Hnow. unfold set, view.
-  set (ttl := match s_ttl o with Some t => t | None => dttl c end).
+  set (ttl := set_ttl c o) in *.
   destruct (find_k k (l c)) as [n|] eqn:Hf.
   - destruct (dl n <? now) eqn:Ed.
     + intros _. cbn [fst l]. set (x := {| key := k; val := v; dl := deadline ttl now |}).
@@ -92,11 +92,12 @@ Proof.
 Qed.
 
 (* the latest successful Set wins: a second Set of the same key replaces the value *)
-Corollary latest_set_wins c k v1 v2 o1 o2 now : 1 <= size c -> now <= MAXI -> mne o2 = false ->
+Corollary latest_set_wins c k v1 v2 o1 o2 now : 1 <= size c -> fits (set_ttl c o2) now -> mne o2 = false ->
   let c1 := fst (set c k v1 o1 now) in view (fst (set c1 k v2 o2 now)) k now = Some v2.
 Proof.
-  intros Hs Hnow Hm. cbn zeta. apply set_then_get; [|exact Hnow|].
-  - unfold set. destruct (find_k k (l c)) as [n|]; [destruct (dl n <? now); [|destruct (mne o1)]|]; cbn [fst size]; exact Hs.
+  intros Hs Hnow Hm. cbn zeta. destruct (set_cfg c k v1 o1 now) as [Hsz Hdt]. apply set_then_get; [| |].
+  - rewrite Hsz. exact Hs.
+  - unfold set_ttl in *. rewrite Hdt. exact Hnow.
   - unfold set at 1. set (c1 := fst (set c k v1 o1 now)).
     destruct (find_k k (l c1)) as [n|]; [destruct (dl n <? now); [reflexivity|rewrite Hm; reflexivity]|reflexivity].
 Qed.
